@@ -47,15 +47,20 @@ max / reference, `min ≤ ref ≤ max`, and flags for the token being enabled, t
 being the expected one, and the feed id matching. `none` = outside the protocol (bad-op). -/
 def pNFeeds (now : Int) : List String → Option (List Feed)
   | [] => some []
-  | tok :: adj :: found :: adjm :: ratio :: ots :: slot :: mn :: mx :: m :: rf :: en :: pv :: fm :: rest =>
-    match allNat [tok, adj, found, adjm, ratio, slot, mn, mx, m, rf, en, pv, fm], pInt ots, pNFeeds now rest with
-    | some [tok, adj, found, adjm, ratio, slot, mn, mx, m, rf, en, pv, fm], some ots, some fs =>
-      if m ≤ 20 ∧ m % 2 = 0 ∧ mn ≤ rf ∧ rf ≤ mx ∧ mx < 2 ^ 32 ∧ adj ≤ 1 ∧ found ≤ 1 ∧ en ≤ 1 ∧ pv ≤ 1 ∧ fm ≤ 1 ∧
+  | tok :: adj :: found :: adjm :: ratio :: ots :: slot :: mn :: mx :: m :: rf :: en :: ac :: ex :: fm :: rest =>
+    match allNat [tok, adj, found, adjm, ratio, slot, mn, mx, m, rf, en, ac, ex, fm], pInt ots, pNFeeds now rest with
+    | some [tok, adj, found, adjm, ratio, slot, mn, mx, m, rf, en, ac, ex, fm], some ots, some fs =>
+      -- `ac`: 0 custom feed storing ChainlinkDataStreams, 1 custom feed storing Pyth, 2 Pyth `PriceUpdateV2`
+      -- account (price = rf, confidence = mx − rf = rf − mn, no reference price); `ex`: expected provider 0 | 1
+      if m ≤ 20 ∧ m % 2 = 0 ∧ mn ≤ rf ∧ rf ≤ mx ∧ mx < 2 ^ 32 ∧ adj ≤ 1 ∧ found ≤ 1 ∧ en ≤ 1 ∧ ac ≤ 2 ∧ ex ≤ 1 ∧ fm ≤ 1 ∧
+         (ac = 2 → rf - mn = mx - rf) ∧
          0 ≤ ots ∧ now - ots ≤ 4000000000 ∧ ots - now ≤ 4000000000 then
-        some ({ token := tok, enabled := en == 1, expectedProvider := 0, provider := if pv = 1 then 0 else 1,
+        some ({ token := tok, enabled := en == 1, expectedProvider := ex, provider := if ac = 1 then 1 else 0,
+                acct := if ac = 2 then .pyth else .custom,
                 feedMatches := fm == 1, allowAdjust := adj == 1,
                 cfg := { found := found == 1, adjustment := adjm, devFactor := devOfRatio ratio },
-                oracleTs := ots, slot := slot, price := ⟨⟨mn, m⟩, ⟨mx, m⟩⟩, ref := some ⟨rf, m⟩ } :: fs)
+                oracleTs := ots, slot := slot, price := ⟨⟨mn, m⟩, ⟨mx, m⟩⟩,
+                ref := if ac = 2 then none else some ⟨rf, m⟩ } :: fs)
       else none
     | _, _, _ => none
   | _ => none
